@@ -157,7 +157,7 @@ def main(tier, seed):
         "faults": info,
     }
     return rep.finish(
-        "exploration" if tier == "quick" else "fault_enumeration", coverage,
+        "exploration", coverage,
         assumptions=[
             "netCDF output goes through the real library to real files; faults are "
             "injected at the DataFile method boundary",
